@@ -39,7 +39,7 @@ func (S) Info() scen.Info {
 			"goroutine scheduling": "stub: seeded scheduler, blind baton (raw pipe syscalls)",
 			"race detection":       "real: Go race detector in the child process",
 		},
-		QuickUnits: 5000, ThoroughUnits: 600000, QuickSecs: 240, ThoroughSecs: 1500,
+		QuickUnits: 8000, ThoroughUnits: 600000, QuickSecs: 240, ThoroughSecs: 1500,
 		ProbeKeys:    []string{"probe.profile0", "probe.profile1", "probe.profile2", "probe.switches_ge_10", "probe.walk_vs_walk", "probe.wrap_vs_wrap", "probe.backend_fsstore", "probe.backend_memstore"},
 		EventsKey:    "events",
 		ShrinkBudget: 30,
